@@ -522,12 +522,48 @@ def zero_sized(path, fn, prop, res):
         if k == "binop" and e["op"] == "+":
             return zeroable(e["l"]) and zeroable(e["r"])
         return False
+    def zero_selectors(e, out):
+        """variables of the conditions that select a zero alternative"""
+        while isinstance(e, dict) and e.get("k") == "cast":
+            e = e["e"]
+        if not isinstance(e, dict):
+            return
+        if e.get("k") == "cond":
+            if zeroable(e["a"]) or zeroable(e["b"]):
+                sa.walk(e["c"], lambda n: out.add(n["id"]) if n.get("k") == "var" else None)
+            zero_selectors(e["a"], out)
+            zero_selectors(e["b"], out)
+        elif e.get("k") == "binop":
+            zero_selectors(e["l"], out)
+            zero_selectors(e["r"], out)
+    # variables that some branch condition tests, with the line of the test: a zero alternative chosen by a variable that an earlier test
+    # constrains (if (d_overlap || n_overlap) tp = TMP_ALLOC_LIMBS ((d_overlap ? dl : 0) + (n_overlap ? nl : 0))) is left undecided
+    tested = collections.defaultdict(list)
+    for b in fn["blocks"]:
+        t = b.get("term")
+        if t and t.get("cond"):
+            sa.walk(t["cond"], lambda n, t=t: tested[n["id"]].append(t.get("line", 0)) if n.get("k") == "var" else None)
+    assigned = collections.defaultdict(list)        # a test only constrains the variable until its next assignment
+    for b in fn["blocks"]:
+        for el in b["elems"]:
+            def asg(n, el=el):
+                if n.get("k") == "binop" and n["op"].endswith("=") and n["op"] not in ("==", "!=", "<=", ">=") and n["l"].get("k") == "var":
+                    assigned[n["l"]["id"]].append(el["line"])
+                if n.get("k") == "unop" and n["op"] in ("post++", "pre++", "post--", "pre--") and n["e"].get("k") == "var":
+                    assigned[n["e"]["id"]].append(el["line"])
+            sa.walk(el["e"], asg)
     for b in fn["blocks"]:                          # all blocks: also the ones Clang's CFG prunes in this configuration
         for el in b["elems"]:
             e = el["e"]
             if e.get("k") == "call" and (e.get("callee") in ALLOC_FNS or e.get("callee") == "__builtin_alloca") and e.get("args"):
                 res["stats"]["tmp_alloc_sites"] += 1
                 if zeroable(e["args"][-1]):
+                    sel = set()
+                    zero_selectors(e["args"][-1], sel)
+                    if any(l_ < el["line"] and not any(l_ <= a_ <= el["line"] for a_ in assigned.get(v_, []))
+                           for v_ in sel for l_ in tested.get(v_, [])):
+                        res["stats"]["tmp_zero_size_undecided"] += 1
+                        continue
                     res["findings"].append(Finding(prop, "R-TMP", path, el["line"], fn["name"], "zero-size:%d" % el["line"],
                                                    "the temporary allocation at line %d can be asked for 0 bytes (its size expression has a "
                                                    "literal-zero alternative): TMP_ALLOC (0) is not allowed - it aborts under --enable-alloca=debug"
